@@ -96,15 +96,22 @@ def native_case(args) -> dict:
             S = dsfamily.n_shards(ds_, split)
             for iface in dsfamily.interfaces(fmt, with_rust=True):
                 for sh in (0, 3):
-                    for par in ((1, 2, 4) if iface != "sync" else (None,)):
+                    # as_tfdataset documents file_parallelism=None
+                    for par in (((1, 2, 4) + (("none",) if iface == "tf"
+                                              else ()))
+                                if iface != "sync" else (None,)):
                         for k in (1, 2 * len(want) + 1):
                             kw = {"shuffle": sh}
-                            if par:
+                            if par == "none":
+                                kw["file_parallelism"] = None
+                                par = None
+                            elif par:
                                 kw["file_parallelism"] = par
                             oc = D.OpenCounter(root)
                             try:
                                 got = D.with_alarm(
-                                    120,
+                                    120 if "file_parallelism" not in kw or
+                                    kw["file_parallelism"] else 45,
                                     lambda: D.take(ds_, split, iface, k, **kw))
                                 opens = oc.read()
                             except D.Watchdog as e:
@@ -310,8 +317,19 @@ def run(ctx):
     with core.pool() as ex:
         tot = 0
         mx = {}
-        for r in ex.map(native_case,
-                        [(n, ctx.tier) for n in dsfamily.RECIPES]):
+        # tf.data / Rust consume in native threads: an endless read-ahead
+        # there cannot be interrupted from Python and ends with the worker
+        # hung or killed for memory - the pool is watched from outside
+        for t, r in core.run_with_watchdog(
+                native_case, [(n, ctx.tier) for n in dsfamily.RECIPES], 300,
+                stop_after_hang=True):
+            if r.get("hung"):
+                sig, msg, _ = r["bad"][0]
+                ctx.violation({"engine": "dataset", **sig},
+                              f"take-k from repeating streams of recipe "
+                              f"{t[0]}: {msg}",
+                              {"kind": "native", "name": t[0]})
+                continue
             if r["harness"]:
                 ctx.harness_error(f"{r['name']}: {r['harness']}")
                 continue
